@@ -94,7 +94,7 @@ let () =
              Printf.printf "I %d %d %d %d %d %d %d %s\n" (int_of_n k) (if i.i_ext then 1 else 0) (int_of_n i.i_size)
                (int_of_n i.i_sparse) (int_of_n i.i_start) (int_of_n i.i_fidx) (int_of_n i.i_foff)
                (if i.i_blocks = [] then "-" else String.concat "," (List.map (fun x -> string_of_int (int_of_n x)) i.i_blocks)))
-             (obs_inodes s);
+             (List.init nfiles (fun k -> (n_of_int k, obs_inodes s (n_of_int k))));
            List.iter (fun (st, w) -> Printf.printf "F %d %d\n" (int_of_n st) (int_of_n w)) (obs_ftbl s);
            Printf.printf "X %s\n" (hex (obs_file s));
            Printf.printf "B %d\n" (int_of_n (obs_backlog s))
